@@ -220,6 +220,9 @@ func c08name(c *engine.Ctx, k *c08canary, config, name string, maxArgs int) {
 				src = "{ q08 = " + call + " }"
 			}
 			r := c08eval(env, src)
+			if len(vec) == 2 && rt == "alias" && vec[0] == menu[1] && vec[1] == menu[3] {
+				c.AddSample(config + ": " + src)
+			}
 			c.Count("calls", 1)
 			c.Evals++
 			if r.timeout {
@@ -374,6 +377,72 @@ func c08dynamic(c *engine.Ctx, k *c08canary, only string) {
 	}
 }
 
+// c08shadow: the script itself binds the names of the outside-world primitives (as values, functions and macros),
+// then reaches for the outside world in later evaluations. Whatever the sandbox decides must not depend on what
+// names the script has bound.
+func c08shadow(c *engine.Ctx, k *c08canary, only string) {
+	var names []string
+	for n := range zygo.SystemFunctions() {
+		names = append(names, n)
+	}
+	names = append(names, "sys", "import", "include", "req", "sandboxed", "sandbox")
+	sort.Strings(names)
+	m := k.menu()
+	attempts := []string{
+		"(include " + m[0] + ")", "(eval (quote (include " + m[0] + ")))", "(defmac mi08 [] ^(include " + m[0] + ")) (mi08)", "(defmac mj08 [] (eval (quote (include " + m[0] + ")))) (mj08)",
+		"(import " + m[5] + ")", "(req " + strings.Trim(m[0], `"`) + ")", "(sys " + m[3] + ")", "(source " + m[0] + ")", "(system " + m[3] + ")", "(slurpf " + m[1] + ")", "(getenv " + m[4] + ")",
+		"(writef " + m[2] + " \"x\")", "(expectError \"zz\" (include " + m[0] + "))",
+	}
+	for _, config := range []string{"sandbox", "sandbox+std"} {
+		for _, n := range names {
+			for di, def := range []string{"(def " + n + " 0)", "(defn " + n + " [& a] 0)", "(def " + n + " (fn [& a] 0))", "(defmac " + n + " [& a] 0)", "(def " + n + " true)"} {
+				w := fmt.Sprintf("SHADOW|%s|%s|%d", config, n, di)
+				if only != "" && only != w {
+					continue
+				}
+				if only == "" && !c.Mine() {
+					continue
+				}
+				c.Begin(w)
+				env := c08newEnv(config)
+				c08eval(env, def) // may be refused (reserved word, builtin): that is fine
+				for _, src := range attempts {
+					r := c08eval(env, src)
+					c.Count("shadow_calls", 1)
+					c.Evals++
+					viol := func(clause, detail string) {
+						c.Violation(clause, fmt.Sprintf("C08/shadow-%s/%s/%s", clause, config, n), w, detail+"\n  after "+def+": "+src)
+					}
+					if r.timeout {
+						env = c08newEnv(config)
+						c08eval(env, def)
+						continue
+					}
+					if b := k.breach(); b != "" {
+						viol("outside-world-changed", b)
+						k.restore()
+					}
+					if x := c08leak(r.val); x != "" {
+						viol("leak-value", "the returned value contains "+x)
+					}
+					if _, bound := env.VerifGlobal("CANARYMARK"); bound {
+						viol("file-executed", "the canary source file was evaluated")
+						env = c08newEnv(config)
+						c08eval(env, def)
+					}
+					if _, bound := env.VerifGlobal("cpk"); bound {
+						viol("file-executed", "the canary package file was imported")
+						env = c08newEnv(config)
+						c08eval(env, def)
+					}
+				}
+				env.Close()
+				c.Outcome(w)
+			}
+		}
+	}
+}
+
 func c08all(c *engine.Ctx, only string) {
 	k := c08setup()
 	defer os.RemoveAll(k.dir)
@@ -397,7 +466,7 @@ func c08all(c *engine.Ctx, only string) {
 			if strings.ContainsAny(n, "()[]{}\"' `") || n == "" {
 				continue
 			}
-			if strings.HasPrefix(only, "DYN|") || strings.HasPrefix(only, "CLI|") {
+			if strings.HasPrefix(only, "DYN|") || strings.HasPrefix(only, "CLI|") || strings.HasPrefix(only, "SHADOW|") {
 				break
 			}
 			if only != "" && only != config+"|"+n {
@@ -407,6 +476,9 @@ func c08all(c *engine.Ctx, only string) {
 				c08name(c, k, config, n, maxArgs)
 			}
 		}
+	}
+	if only == "" || strings.HasPrefix(only, "SHADOW|") {
+		c08shadow(c, k, only)
 	}
 	if only == "" || strings.HasPrefix(only, "DYN|") {
 		c08dynamic(c, k, only)
@@ -421,7 +493,7 @@ func init() {
 		ID:    "C08",
 		Level: "exploration",
 		Rule: "configurations {NewZlispSandbox(), sandbox + StandardSetup()} x every name bound in that interpreter (read from the interpreter itself, so an added primitive is seen) + the 24 special forms of the compiler + the setup macros x every argument vector of length 0..2 (thorough 3) over an 9-item canary menu " +
-			"(path of a canary source file, of a secret file, of a new file, a shell command writing a file, the name of a canary environment variable, a canary package file, a shell command printing the secret file, 0, a symbol) x call routes {direct, alias, apply, macro, inside a function, eval of a quoted form, infix, eval at macro-expansion time and as expectError operand (both run in a duplicate of the interpreter)}; plus every outside-world primitive of the full interpreter reached for by a name computed at run time (str2sym / eval / apply / cons, 7 routes x 9 x 3 argument vectors); plus 25 forms through `zygo -sandbox -c`; " +
+			"(path of a canary source file, of a secret file, of a new file, a shell command writing a file, the name of a canary environment variable, a canary package file, a shell command printing the secret file, 0, a symbol) x call routes {direct, alias, apply, macro, inside a function, eval of a quoted form, infix, eval at macro-expansion time and as expectError operand (both run in a duplicate of the interpreter)}; plus every outside-world primitive of the full interpreter reached for by a name computed at run time (str2sym / eval / apply / cons, 7 routes x 9 x 3 argument vectors); plus, after the script itself has bound each of those names (as value, function, macro), 13 reach attempts in later evaluations; plus 25 forms through `zygo -sandbox -c`; " +
 			"after every call: canary directory byte-identical, no new file, canary variable unchanged, no secret in the value or on stdout, the canary source not evaluated, process alive",
 		Assumptions:   []string{"effects other than file / process / environment / exit (e.g. network) have no canary", "calls that do not return within 4 s are counted as blocked, not judged"},
 		QuickDeadline: 170 * time.Second,
